@@ -548,11 +548,6 @@ func (st *Store) processPointsUpstream(upNodeID, nodeID string, points data.Poin
 		return err
 	}
 
-	if upNodeID == "none" {
-		// we are at the top, stop
-		return nil
-	}
-
 	ups, err := st.db.up(upNodeID, false)
 	if err != nil {
 		return err
@@ -619,11 +614,6 @@ func (st *Store) processEdgePointsUpstream(upNodeID, nodeID, parentID string, po
 
 	if err != nil {
 		return err
-	}
-
-	if upNodeID == "none" {
-		// we are at the top, stop
-		return nil
 	}
 
 	ups, err := st.db.up(upNodeID, true)
